@@ -6,8 +6,14 @@ V = os.path.dirname(os.path.dirname(os.path.abspath(__file__)))
 repo = os.environ.get("VERIF_REPO", "/repo")
 os.makedirs(os.path.join(V, "coq", "Gen"), exist_ok=True)
 rc = 0
+# VERIF_GEN_HOOKS=<comma list of hook name prefixes>: run only those hooks (used by tools/seedtest.py to keep the critical section
+# short; lib/stdflow.py then verifies that the property file depends on no generated file of a hook that was skipped)
+only = os.environ.get("VERIF_GEN_HOOKS")
+only = None if only is None else [x for x in only.split(",") if x]
 for tool in sorted(os.listdir(os.path.join(V, "tools", "gen.d"))):
     p = os.path.join(V, "tools", "gen.d", tool)
+    if only is not None and not any(tool.startswith(x) for x in only):
+        continue
     if os.access(p, os.X_OK):
         r = subprocess.run([p, repo], stdout=subprocess.PIPE, stderr=subprocess.STDOUT)
         sys.stdout.write(r.stdout.decode())
